@@ -1,5 +1,6 @@
 """C12 — output assembly loses nothing (generator/file_manager.go)."""
 import json
+import os
 import vlib
 
 
@@ -15,13 +16,25 @@ class S(vlib.Spec):
                   3: "named patch without target accepted", 4: "unnamed first item accepted", 5: "a file that must be kept is missing / dropped wrongly / misnamed", 6: "markers not removed or text changed (no patches)", 9: "model out of fuel"}
     modelled = ("generator/file_manager.go: FileManager.Feed (incl. the rename walk), insertReg.FindAllString, "
                 "insertionPointReplacer.Add/Replace (strings.NewReplacer generic algorithm), FileManager.BuildResponse "
-                "-> coq/Gen/FileManager.v; hand-written, tied by correspondence on every run")
+                "-> coq/Gen/FileManager.v; hand-written, tied by correspondence on every run; the marker syntax (InsertionPointFormat, "
+                "the character class of insertReg) is additionally regenerated from the source by harness/cmd/translate-markers into "
+                "coq/Gen/MarkerTable.v and proved equal to the model's (C12_marker_syntax_is_source, C12_marker_alphabet_is_source)")
     trusted_base = [
         "hand-written model coq/Gen/FileManager.v (mirrors file_manager.go statement by statement)",
-        "Go regexp (leftmost-first FindAllString) and strings.NewReplacer semantics as modelled by find_markers / replace; Go map iteration order is irrelevant for the replacer only when no key is a prefix of another (theorem hypothesis keys_prefix_free, generated inputs never put ')' inside an insertion-point name)",
+        "Go regexp (leftmost-first FindAllString), sort.Strings and strings.NewReplacer (leftmost match, first listed pair wins) as modelled by find_markers / listed_pairs / replace",
+        "harness/cmd/translate-markers (go/ast reader of one constant and one regexp literal; refuses shapes it does not understand)",
         "harness/cmd/c12 (drives the real FileManager in-process), harness/coqfmt (Go value -> Coq term printer), lib/vlib.py",
     ]
     assumptions = ["filepath.Ext / fmt.Sprintf(%d) behave as split_ext / digits", "log output is not part of the observable"]
+
+    def translators(self, ctx):
+        ok, log, binp = vlib.go_build("./cmd/translate-markers", "translate-markers")
+        if not ok:
+            raise RuntimeError("translate-markers build failed: " + log[-1000:])
+        rc, out = vlib.sh([binp, "-repo", vlib.REPO, "-out", os.path.join(vlib.COQ, "Gen", "MarkerTable.v")])
+        if rc != 0:
+            raise RuntimeError("translate-markers failed: " + out[-1000:])
+        return ["translate-markers -> coq/Gen/MarkerTable.v: " + out.strip().splitlines()[-1]]
 
     def classify(self, code, case):
         return {2: "C12-duplicate-output-name", 3: "C12-named-patch-no-target", 4: "C12-unnamed-first-accepted", 5: "C12-kept-files-bookkeeping", 6: "C12-text-or-markers-changed"}.get(code, "C12-code-%d" % code)
